@@ -286,6 +286,8 @@ def e2eFault (kind : String) : Option Listener.Fault :=
   | "local-junk" => some .localGarbage
   | "local-stall" => some .localStall
   | "local-udp-junk" => some .localUdpGarbage
+  | "local-udp-oversized" => some .localUdpGarbage        -- the datagram that cannot be sent on is lost, nothing else
+  | "server-udp-oversized-reply" => some .udpGarbage      -- the answer that cannot be relayed is lost, nothing else
   | "local-udp-short" => some .localUdpGarbage
   | "quic-stall" => some .tlsStall
   | "quic-junk" => some .udpGarbage
